@@ -297,6 +297,35 @@ def run_kcovar(case):
   return R(None, nt, tuple(sorted(set(outcomes))), extra={"kcovar_" + o: outcomes.count(o) for o in set(outcomes)})
 
 
+# ------------------------------------------------------------ calling routes
+from ..routes import routes_agree
+
+
+def route_table():
+  from audiolazy import lag_matrix
+  T = OrderedDict()
+  c = lambda v: (lambda: v)
+  blk = lambda: qs([F(1), F(-2), F(3), F(1), F(0), F(2)])
+  fc = lambda f: [sorted((k, str(fr(v))) for k, v in f.numpoly.terms()), str(fr(f.error))]
+  T["levinson_durbin"] = (levinson_durbin, [("acdata", lambda: qs([F(5), F(2), F(1), F(1, 2)])), ("order", c(2))], fc)
+  T["lpc.kautocor"] = (lpc.kautocor, [("blk", blk), ("order", c(2))], fc)
+  T["lpc.kcovar"] = (lpc.kcovar, [("blk", blk), ("order", c(2))], fc)
+  T["acorr"] = (acorr, [("blk", blk), ("max_lag", c(3))], lambda v: [str(fr(e)) for e in v])
+  T["lag_matrix"] = (lag_matrix, [("blk", blk), ("max_lag", c(2))], lambda m: [[str(fr(e)) for e in row] for row in m])
+  T["toeplitz"] = (toeplitz, [("vect", lambda: qs([F(3), F(2), F(1)]))], lambda m: [[str(fr(e)) for e in row] for row in m])
+  return T
+
+
+def gen_routes(run):
+  for name in route_table():
+    yield (name,)
+
+
+def run_routes(case):
+  f, spec, canon = route_table()[case[0]]
+  return routes_agree(case[0], f, spec, canon)
+
+
 KINDS = OrderedDict([
   ("reflection", Kind(gen_reflection, run_reflection, chunk=10,
                       rule="reflection vectors x r0 x orders; non-trivial: p >= 2")),
@@ -304,4 +333,6 @@ KINDS = OrderedDict([
                   rule="data blocks x orders: acorr/toeplitz/lag_matrix tables, levinson_durbin, lpc.kautocor")),
   ("kcovar", Kind(gen_kcovar, run_kcovar, chunk=8,
                   rule="data blocks x orders for lpc.kcovar; non-trivial: it returned a filter")),
+  ("call-routes", Kind(gen_routes, run_routes, chunk=1,
+                       rule="each function with every documented parameter set: all positional / all keyword / every split must agree")),
 ])
